@@ -1102,6 +1102,8 @@ func runC11(tier string, seed uint64, o *Out) error {
 		o.Line("C11 T %s %s", hx(s), out)
 		lexLine(o, s)
 	}
+	// (5) MATCH_RECOGNIZE as written, WITHIN in every written form (c11_within.go, M lines)
+	c11WithinFamily(seed, o, tier)
 	return nil
 }
 
